@@ -7,7 +7,7 @@ sys.path.insert(0, os.path.dirname(os.path.abspath(__file__)))
 import common
 
 for pid in sys.argv[1:]:
-  ctx = common.Ctx(pid, 'quick', 0)
+  ctx = common.Ctx(pid if pid.startswith('C') and len(pid) == 3 else 'C05', 'quick', 0)   # extra indices (DYN) ride on a host check
   idx = os.path.join(common.LEAN, 'index', f'{pid}.txt')
   theorems = [l.strip() for l in open(idx) if l.strip() and not l.startswith('#')]
   sigp = os.path.join(common.LEAN, 'index', f'{pid}.sig')
